@@ -48,7 +48,12 @@ func FetchRecord(ctx context.Context, r Resolver, fromDomain string) (policyDoma
 			return "", nil, err
 		}
 	}
-	if len(txts) == 0 {
+	// Exclude records that are not DMARC policies. This is done before
+	// deciding on the fallback so an unrelated TXT record (e.g. a wildcard
+	// SPF record that also covers _dmarc.sub.example.org) does not hide the
+	// policy of the Organizational Domain, see RFC 7489 Section 6.6.3.
+	records := filterRecords(txts)
+	if len(records) == 0 {
 		// No records or 'no such host', try orgDomain.
 		// publicsuffix matches its rules against the literal string, the
 		// domain from the header may use any case.
@@ -66,27 +71,28 @@ func FetchRecord(ctx context.Context, r Resolver, fromDomain string) (policyDoma
 				return "", nil, err
 			}
 		}
-		// Still nothing? Bail out.
-		if len(txts) == 0 {
-			return "", nil, nil
-		}
+		records = filterRecords(txts)
 	}
 
-	// Exclude records that are not DMARC policies.
-	records := txts[:0]
-	for _, txt := range txts {
-		if strings.HasPrefix(txt, "v=DMARC1") {
-			records = append(records, txt)
-		}
-	}
-	// Multiple records => no record.
-	if len(records) > 1 || len(records) == 0 {
+	// Still nothing or multiple records => no record.
+	if len(records) != 1 {
 		return "", nil, nil
 	}
 
 	rec, err = dmarc.Parse(records[0])
 
 	return policyDomain, rec, err
+}
+
+// filterRecords returns TXT records that are DMARC policies.
+func filterRecords(txts []string) []string {
+	records := make([]string, 0, len(txts))
+	for _, txt := range txts {
+		if strings.HasPrefix(txt, "v=DMARC1") {
+			records = append(records, txt)
+		}
+	}
+	return records
 }
 
 type EvalResult struct {
